@@ -32,7 +32,7 @@ func (sm *storedMessages) add(msg *IncMessage) {
 
 	if sm.messageCountPerSender[msg.Source] > limitPerSender {
 		sm.logger.Warnf("Received too many messages from %d (limit is %d) for topic %s",
-			msg.Source, limitPerSender, hex.EncodeToString(msg.Topic[:8]))
+			msg.Source, limitPerSender, hex.EncodeToString(msg.Topic))
 		return
 	}
 
@@ -133,7 +133,7 @@ func (b *Box) getOrCreateMessagesByTopic(topic []byte) *storedMessages {
 
 	messages, exists = b.pendingMessages[string(topic)]
 	if !exists {
-		messages = &storedMessages{messageCountPerSender: make(map[uint16]int)}
+		messages = &storedMessages{logger: b.Logger, messageCountPerSender: make(map[uint16]int)}
 	}
 
 	b.pendingMessages[string(topic)] = messages
